@@ -546,7 +546,9 @@ def extract_item(block, unit, fired_total, clauses, meta_items, mode='verus'):
     if block.is_slice:
         head = '\n'.join(a for (w, a, _) in block.directives if w == 'head')
         tail = '\n'.join(a for (w, a, _) in block.directives if w == 'tail')
-        text = tag_lines(head, 'wrap', '') + text + '\n' + tag_lines(tail, 'wrap', '')
+        mname = re.search(r'\bfn\s+(\w+)', head)
+        wtag = '%s.%s.wrap' % (unit, mname.group(1) if mname else 'slice')
+        text = tag_lines(head, wtag, '') + text + '\n' + tag_lines(tail, wtag, '')
     if mode == 'verus':
         # R13: name the ghost iterator of every `for` loop: `for P in E {` -> `for P in vx_it<k>: E {`
         tk = code_tokens(text)
